@@ -452,6 +452,62 @@ func (e *Engine) registerDomain() {
 		}
 		return []Outcome{{st: c.st, tail: &TailCall{fn: FuncV{fn: fn}, args: []Value{tr.v, c.args[1]}}}}
 	})
+	r("(*net/http.Client).Get", func(c *CallCtx) []Outcome {
+		// Get = NewRequest("GET", url, nil) + Do
+		cl := c.args[0].(Ptr)
+		if cl.IsNil() {
+			return c.panicOut("nil-deref-http-client")
+		}
+		uri := c.args[1].(*Str)
+		invalid := c.st.urlInvalid(uri)
+		a, b := c.e.forkOn(c.st, invalid)
+		var outs []Outcome
+		if a != nil {
+			outs = append(outs, Outcome{st: a, val: TupleV{Ptr{}, c.e.newError(a, "parse url")}})
+		}
+		if b != nil {
+			ct := c.e.namedType("net/http", "Client")
+			tr := b.getField(cl, ct, "Transport").(IfaceV)
+			if tr.t == nil {
+				unm("http.Client.Get with the default transport (real network)")
+			}
+			rt := c.e.namedType("net/http", "Request")
+			hdr := MapV{obj: b.newObj(&MapObj{})}
+			ut := c.e.namedType("net/url", "URL")
+			u := c.e.newStruct(b, ut, nil)
+			b.ghost["urlraw:"+ptrKey(u)] = uri
+			req := c.e.newStruct(b, rt, map[string]Value{"Method": constStr("GET"), "URL": u, "Header": hdr})
+			iface := c.e.namedType("net/http", "RoundTripper").Underlying().(*types.Interface)
+			var m *types.Func
+			for i := 0; i < iface.NumMethods(); i++ {
+				if iface.Method(i).Name() == "RoundTrip" {
+					m = iface.Method(i)
+				}
+			}
+			fn := c.e.prog.LookupMethod(tr.t, m.Pkg(), "RoundTrip")
+			outs = append(outs, Outcome{st: b, tail: &TailCall{fn: FuncV{fn: fn}, args: []Value{tr.v, req}}})
+		}
+		return outs
+	})
+	r("encoding/json.NewDecoder", func(c *CallCtx) []Outcome {
+		return c.ret(Ptr{obj: c.st.newObj(OpaqueV{kind: "jsondecoder", data: c.args[0]})})
+	})
+	r("(*encoding/json.Decoder).Decode", func(c *CallCtx) []Outcome {
+		dec := c.args[0].(Ptr)
+		rd := c.st.heap.objs[dec.obj].(OpaqueV).data.(Value)
+		// read the whole body, then decode it like Unmarshal
+		sub := &CallCtx{e: c.e, st: c.st, args: []Value{rd}, pos: c.pos}
+		var outs []Outcome
+		for _, o := range c.e.intr["io.ReadAll"](sub) {
+			tv := o.val.(TupleV)
+			if ev := tv[1].(IfaceV); ev.t != nil {
+				outs = append(outs, Outcome{st: o.st, val: ev})
+				continue
+			}
+			outs = append(outs, c.e.jsonUnmarshal(&CallCtx{e: c.e, st: o.st, args: []Value{tv[0], c.args[1]}, pos: c.pos})...)
+		}
+		return outs
+	})
 	r("io.NopCloser", func(c *CallCtx) []Outcome {
 		rd := c.args[0].(IfaceV)
 		return c.ret(IfaceV{t: c.e.namedType("io", "ReadCloser"), v: OpaqueV{kind: "readcloser", data: rd.v}})
